@@ -209,6 +209,7 @@ func checkC01(r *Report, known []Finding) {
 	compileTie(r, known, "C01", n)
 	c02RevSuffixTie(r) // IsMatch of the reverse-suffix strategy vs its Lean model and regexp
 	c02StrategyTies(r) // the same for reverse inner / reverse anchored / reverse suffix set / multiline reverse suffix
+	c02MetaFindTie(r)  // IsMatch (and FindIndices) of the core dispatch vs Cx.MetaFind and regexp
 	obs := append(obsMatch(), obsReader()[0], Obs{"pkg.MatchString", func(re StdAPI, h []byte) string {
 		p := re.String()
 		if _, ok := re.(*coregex.Regex); ok {
@@ -230,6 +231,7 @@ func checkC02(r *Report, known []Finding) {
 	c02ReverseTie(r)
 	c02RevSuffixTie(r)
 	c02StrategyTies(r)
+	c02MetaFindTie(r) // core dispatch (UseNFA / UseDFA / UseBoth / UseBoundedBacktracker) vs Cx.MetaFind and regexp
 	replayKnownExamples(r, known, "C02")
 }
 
